@@ -254,7 +254,21 @@ def gen_topology_spec(rng, small=False, build_file=True):
     if not small and rng.random() < 0.4:
         base = rng.choice(kinds)
         kinds.append(rename_kind(base, "T" + base["resname"][1:], "Z"))
-    # molecule types: no type mixes two kinds of the same residue name
+    cap = None
+    if not small and rng.random() < 0.45:
+        # a capped chain end: SAME residue name and SAME bare bond graph as its repeat unit, but one (sometimes every)
+        # atom carries another name (PEO C1-O1-C2 ... C1-O1-N2) - and it sits in the SAME molecule as the repeat unit
+        base = rng.randrange(len(kinds))
+        twin = json.loads(json.dumps(kinds[base]))
+        twin.pop("alias_of", None)
+        renamed = range(len(twin["atoms"])) if rng.random() < 0.25 else [rng.randrange(len(twin["atoms"]))]
+        for a in renamed:
+            twin["atoms"][a]["name"] = "N" + twin["atoms"][a]["name"]
+        twin["alias_of"] = base
+        twin["cap_of"] = base
+        kinds.append(twin)
+        cap = (base, len(kinds) - 1)
+    # molecule types: no type mixes two kinds of the same residue name (except a repeat unit and its capped end)
     nmol = 1 if small else rng.randint(1, 3)
     moltypes = []
     for m in range(nmol):
@@ -262,14 +276,23 @@ def gen_topology_spec(rng, small=False, build_file=True):
         seq = []
         for _ in range(nres):
             cand = [i for i, k in enumerate(kinds)
-                    if all(kinds[j]["resname"] != k["resname"] or j == i for j in seq)]
+                    if all(kinds[j]["resname"] != k["resname"] or j == i or (cap is not None and {i, j} == set(cap))
+                           for j in seq)]
             seq.append(rng.choice(cand))
+        if cap is not None and m == 0:
+            # the first molecule type holds the repeat unit and its capped end (in either order)
+            seq = [k for k in seq if kinds[k]["resname"] != kinds[cap[0]]["resname"] or k in cap]
+            for k in (cap if rng.random() < 0.7 else cap[::-1]):
+                if k not in seq:
+                    seq.append(k)
+            nres = len(seq)
         links = []
         for r in range(1, nres):
             a = rng.randrange(r)
             links.append([a, rng.randrange(kinds[seq[a]]["nreal"]), r, rng.randrange(kinds[seq[r]]["nreal"])])
         moltypes.append(dict(name="M%d" % m, residues=seq, links=links, count=rng.choice([1, 1, 2])))
-    spec = dict(kinds=kinds, moltypes=moltypes, skip_filter=(not small and rng.random() < 0.25), build=None)
+    spec = dict(kinds=kinds, moltypes=moltypes,
+                skip_filter=(not small and rng.random() < (0.6 if cap is not None else 0.25)), build=None)
     if build_file and not small and rng.random() < 0.6:
         spec["build"] = gen_build_file(rng, spec)
     return spec
@@ -897,7 +920,8 @@ def system_case(ctx, replay):
                  stream="system", residues=nres if nres <= 3 else "4+", molecule_types=len(spec["moltypes"]),
                  build_file=has_bf, skip_filter=spec["skip_filter"], generated=len(generated) if len(generated) <= 3 else "4+",
                  user_templates=len(bf_templates), captured=records is not None,
-                 same_name_other_content=any("alias_of" in k for k in kinds), scenario=replay.get("scenario", "random"))
+                 same_name_other_content=any("alias_of" in k for k in kinds),
+                 capped_end_in_same_molecule=any("cap_of" in k for k in kinds), scenario=replay.get("scenario", "random"))
         for k in {r["kind"] for r in flat}:
             ctx.tally(kind_shape=kinds[k]["shape"])
     return reqs, judge
